@@ -94,6 +94,8 @@ def prefix(tokeniser: 'Tokeniser') -> IPRange:
 def path_information(tokeniser: 'Tokeniser') -> PathInfo:
     pi = tokeniser()
     if pi.isdigit():
+        if int(pi) > _SIZE_L:
+            raise ValueError(f"'{pi}' is not a valid path-information\n  Must be an IPv4 address or a 32 bits number")
         return PathInfo.make_from_integer(int(pi))
     return PathInfo.make_from_ip(pi)
 
